@@ -21,7 +21,7 @@ TESTS = {
                                    why='replay search: source of concrete failing inputs when the deductive check of the client table is undecided (e.g. a changed data representation) or fails'),
     'client_wire_bounded': dict(file='client_wire_bounded', fn='client_wire_three_calls',
                                 functions=['tarpc/src/client.rs::RequestDispatch, Channel::call, ResponseGuard (through the public API, hand-written gated transport)'],
-                                bound='up to 3 calls x 4 fates (answered, abandoned queued, abandoned after transmission, kept) x all fate orders x a dispatch poll or not after each step x capacity 1|2 x readiness gated|not x handles dropped|kept (200832 scenarios); oracles on the wire log (C01 routing, C03 cancel rules, C10 close rules, C14 sink contract)',
+                                bound='up to 3 calls x 4 fates (answered, abandoned queued, abandoned after transmission, kept) x all fate orders x a dispatch poll or not after each step x capacity 1|2 x readiness gated|not x handles dropped|kept (200832 scenarios); oracles on the wire log (C01 routing, C03 cancel rules, C07 deadline forwarded, C10 close rules, C11 in-flight maximum, C14 sink contract incl. never idle with unflushed items, C18 per-call trace contexts on requests and cancellations)',
                                 why='replay search: source of concrete failing inputs when the deductive check is undecided (code rewritten into a shape the contracts cannot be checked against) or fails'),
     'server_wire_bounded': dict(file='server_wire_bounded', fn='server_wire_scripts',
                                 functions=['tarpc/src/server.rs::BaseChannel, Requests, InFlightRequest::execute; tarpc/src/server/limits/requests_per_channel.rs::MaxRequests (through the public API, hand-written buffering transport)'],
@@ -43,6 +43,10 @@ TESTS = {
                                   functions=['tarpc/src/server.rs::BaseChannel, Requests; requests_per_channel.rs::MaxRequests; server/in_flight_requests.rs::Drop (through the public API, hand-written failing transport)'],
                                   bound='peer scripts <= 3 over {Req 7, Req 8, Cancel 7} x the k-th (k<3) invocation of read|ready|start_send|flush fails and stays failed x handlers finish early|never x with/without the request-limit layer x readiness immediate|pending once first (3744 scenarios, 2992 reach the fault); the driver stops serving at the first error like Requests::execute; oracles: exactly one error naming the activity, no write after a failure, running handlers aborted when the channel is dropped, no panic',
                                   why='replay search: source of concrete failing inputs when the deductive check of unit server is undecided or fails'),
+    'transports_bounded': dict(file='transports_bounded', fn='in_memory_transports_scripts',
+                               functions=['tarpc/src/transport/channel.rs::unbounded, bounded, UnboundedChannel, Channel (through the public API)'],
+                               bound='every script of <= 7 events over {end A|B writes its next message, end A|B polls its stream, end A|B is dropped} for unbounded, bounded(1) and bounded(2) (1007766 runs); oracle = two FIFO queues: every accepted message is read exactly once, unchanged, in order; Pending while the peer is alive; end-of-stream only after the last message once the peer was dropped',
+                               why='replay search: source of concrete failing inputs when the deductive check of unit transports is undecided or fails'),
     'channels_bounded': dict(file='channels_bounded', fn='channels_per_key_scripts',
                              functions=['tarpc/src/server/limits/channels_per_key.rs::MaxChannelsPerKey, TrackedChannel, Tracker (through the public API: Incoming::max_channels_per_key over an mpsc listener of BaseChannels)'],
                              bound='every script of <= 9 events over {arrive key 0, arrive key 1, drop the k-th oldest live yielded channel (k<3), poll once} x n in {1,2} (118516 scripts); oracle = the property (admitted iff fewer than n yielded channels with the key are alive when the filter reaches the arrival)',
@@ -96,7 +100,7 @@ def run_tests(ids, timeout=1500):
         for tid in ids:
             t = TESTS[tid]
             src = open(os.path.join(VERIF, 'native_inrepo' if t.get('inrepo') else os.path.join('native', 'tests'), t['file'] + '.rs')).read()
-            cpath = os.path.join(BUILD, 'cache', 'native-%s-%s.json' % (tid, hashlib.sha256((th + src).encode()).hexdigest()[:24]))
+            cpath = os.path.join(BUILD, 'cache', 'native-%s-%s.json' % (tid, hashlib.sha256(('v3' + th + src).encode()).hexdigest()[:24]))
             os.makedirs(os.path.dirname(cpath), exist_ok=True)
             if os.path.exists(cpath):
                 rec = json.load(open(cpath))
@@ -129,7 +133,8 @@ def run_tests(ids, timeout=1500):
             if not passed and not failed:
                 raise NativeUndecided('native stand-in %s did not build or run: %s' % (tid, txt[-600:].replace('\n', ' | ')))
             attributed = attribute(txt, t['file']) if failed else []
-            rec = dict(id=tid, attributed=attributed, cmd='(cd %s && %s%s)' % (cwd, 'RUSTFLAGS="--cfg tarpc_verif" ' if t.get('inrepo') else '', ' '.join(cmd)), passed=passed, evaluations=int(m.group(1)) if m else 0,
+            fail_lines = [l[:1200] for l in re.findall(r'^VERIF-FAIL .*$', txt, re.M)][:12]
+            rec = dict(id=tid, attributed=attributed, fail_lines=fail_lines, cmd='(cd %s && %s%s)' % (cwd, 'RUSTFLAGS="--cfg tarpc_verif" ' if t.get('inrepo') else '', ' '.join(cmd)), passed=passed, evaluations=int(m.group(1)) if m else 0,
                        functions=t['functions'], bound=t['bound'], why=t['why'], wall_s=time.time() - t0, output_tail=txt[-2500:])
             json.dump(rec, open(cpath, 'w'))
             out.append(rec)
